@@ -215,6 +215,7 @@ class HC_phi_comp(Contract):
     qualname = "pyoma2.functions.gen.HC_phi_comp"
     props = ("C09",)
     loops = _mk_phi_loops()
+    use = {"pyoma2.functions.gen.MPD": "abstract", "pyoma2.functions.gen.MPC": "abstract"}
 
     def setup(self, c):
         n0 = S.integer("n0", lo=1)
